@@ -134,56 +134,90 @@ func c01Order(c *Ctx) {
 	for i, t := range pluginOrder {
 		rank[t] = i
 	}
+	// append sites in parsePlugins and in every module function it reaches through static calls (a
+	// phase helper that receives and returns the plugin slice); chain = the call instructions from
+	// parsePlugins down to the function that holds the append
 	type site struct {
-		call *ssa.Call
-		kind string
+		call  *ssa.Call
+		kind  string
+		chain []ssa.Instruction // chain[0] is in parsePlugins; the last element is the append itself
 	}
 	var sites []site
-	for _, b := range pp.Blocks {
-		for _, in := range b.Instrs {
-			call, ok := in.(*ssa.Call)
-			if !ok {
-				continue
-			}
-			bi, ok := call.Call.Value.(*ssa.Builtin)
-			if !ok || bi.Name() != "append" {
-				continue
-			}
-			sl, ok := call.Type().Underlying().(*types.Slice)
-			if !ok || !strings.HasSuffix(typeStr(sl.Elem()), "plugin.Plugin") {
-				continue
-			}
-			// element kind: the MakeInterface feeding the varargs array
-			kind := ""
-			if s, ok := call.Call.Args[1].(*ssa.Slice); ok {
-				if al, ok := s.X.(*ssa.Alloc); ok && al.Referrers() != nil {
-					for _, r := range *al.Referrers() {
-						if ia, ok := r.(*ssa.IndexAddr); ok && ia.Referrers() != nil {
-							for _, u := range *ia.Referrers() {
-								if st, ok := u.(*ssa.Store); ok {
-									if mi, ok := st.Val.(*ssa.MakeInterface); ok {
-										kind = typeStr(mi.X.Type())
+	var scan func(f *ssa.Function, chain []ssa.Instruction, depth int)
+	visiting := map[*ssa.Function]bool{}
+	scan = func(f *ssa.Function, chain []ssa.Instruction, depth int) {
+		if depth > 4 || visiting[f] {
+			return
+		}
+		visiting[f] = true
+		defer delete(visiting, f)
+		for _, b := range f.Blocks {
+			for _, in := range b.Instrs {
+				call, ok := in.(*ssa.Call)
+				if !ok {
+					continue
+				}
+				bi, ok := call.Call.Value.(*ssa.Builtin)
+				if !ok || bi.Name() != "append" {
+					if callee := an.StaticCallee(&call.Call); callee != nil && callee.Blocks != nil && load.InModule(callee) && strings.HasPrefix(c.fname(callee), "config.") {
+						scan(callee, append(append([]ssa.Instruction{}, chain...), call), depth+1)
+					}
+					continue
+				}
+				sl, ok := call.Type().Underlying().(*types.Slice)
+				if !ok || !strings.HasSuffix(typeStr(sl.Elem()), "plugin.Plugin") {
+					continue
+				}
+				// element kind: the MakeInterface feeding the varargs array
+				kind := ""
+				if s, ok := call.Call.Args[1].(*ssa.Slice); ok {
+					if al, ok := s.X.(*ssa.Alloc); ok && al.Referrers() != nil {
+						for _, r := range *al.Referrers() {
+							if ia, ok := r.(*ssa.IndexAddr); ok && ia.Referrers() != nil {
+								for _, u := range *ia.Referrers() {
+									if st, ok := u.(*ssa.Store); ok {
+										if mi, ok := st.Val.(*ssa.MakeInterface); ok {
+											kind = typeStr(mi.X.Type())
+										}
 									}
 								}
 							}
 						}
 					}
 				}
+				if kind == "" {
+					if _, isSpread := call.Call.Args[1].(*ssa.Slice); !isSpread {
+						// append(plugins, more...): the elements of `more` were appended where it was built
+						if sl2, ok := call.Call.Args[1].Type().Underlying().(*types.Slice); ok && strings.HasSuffix(typeStr(sl2.Elem()), "plugin.Plugin") {
+							continue
+						}
+					}
+				}
+				sites = append(sites, site{call, kind, append(append([]ssa.Instruction{}, chain...), call)})
 			}
-			sites = append(sites, site{call, kind})
 		}
 	}
-	fi := an.Info(pp)
+	scan(pp, nil, 0)
+	// canFollow: after instruction x has executed, instruction y (same function) may execute
+	canFollow := func(x, y ssa.Instruction) bool {
+		if x.Block() == y.Block() {
+			if an.InstrBlockIndex(x) < an.InstrBlockIndex(y) {
+				return true
+			}
+			return an.Info(x.Parent()).Reaches(x.Block(), x.Block()) // in a loop
+		}
+		return an.Info(x.Parent()).Reaches(x.Block(), y.Block())
+	}
 	seenKind := map[string]bool{}
 	for _, s := range sites {
 		seenKind[s.kind] = true
 		if _, ok := rank[s.kind]; !ok {
-			c.R.Fail("R-C01-2", fn+":append-kind:"+s.kind, fn, c.pos(s.call.Pos()), "appends a plugin of kind "+s.kind, "every plugin kind has a place in the documented order", "an option of an undocumented kind/position is advertised")
+			c.R.Fail("R-C01-2", fn+":append-kind:"+s.kind, fn, c.pos(s.call.Pos()), "appends a plugin of kind "+s.kind, "every plugin kind has a place in the documented order", "an option of an undocumented kind is advertised at an undefined position")
 		}
 	}
 	for _, a := range sites {
 		for _, b := range sites {
-			if a.call == b.call {
+			if a.call == b.call && len(a.chain) == len(b.chain) && a.chain[0] == b.chain[0] {
 				continue
 			}
 			ra, okA := rank[a.kind]
@@ -191,12 +225,21 @@ func c01Order(c *Ctx) {
 			if !okA || !okB || ra <= rb {
 				continue
 			}
-			// a is a later kind than b: no path from a to b
+			// a is a later kind than b: b's append must not be able to follow a's. Compare at the first
+			// level where the two call chains differ.
+			k := 0
+			for k < len(a.chain)-1 && k < len(b.chain)-1 && a.chain[k] == b.chain[k] {
+				k++
+			}
 			bad := false
-			if a.call.Block() == b.call.Block() {
-				bad = an.InstrBlockIndex(a.call) < an.InstrBlockIndex(b.call)
+			if a.chain[k].Parent() == b.chain[k].Parent() {
+				if a.chain[k] == b.chain[k] {
+					bad = an.Info(a.chain[k].Parent()).Reaches(a.chain[k].Block(), a.chain[k].Block())
+				} else {
+					bad = canFollow(a.chain[k], b.chain[k])
+				}
 			} else {
-				bad = fi.Reaches(a.call.Block(), b.call.Block())
+				bad = true // not comparable: be conservative
 			}
 			c.R.Check(!bad, "R-C01-2", fmt.Sprintf("%s:order:%s-before-%s", fn, b.kind, a.kind), fn, c.pos(a.call.Pos()),
 				fmt.Sprintf("append of %s can be followed by append of %s: %v", a.kind, b.kind, bad), "plugins are appended in the order "+strings.Join(pluginOrder, ", "), "options appear on the wire in the wrong order")
@@ -474,7 +517,8 @@ func c01Single(c *Ctx) {
 			for _, in := range b.Instrs {
 				if al, ok := in.(*ssa.Alloc); ok && strings.HasSuffix(typeStr(al.Type()), "*ndp.RouterAdvertisement") && al.Heap {
 					n++
-					c.R.Check(fn == ra, "R-C01-5", c.fname(fn)+":constructs-RouterAdvertisement", c.fname(fn), c.pos(al.Pos()), "RA literal in "+c.fname(fn), "only Interface.RouterAdvertisement builds RAs", "an RA that does not come from the configuration can be sent or reported")
+					okFrom, _ := c.reachedOnlyFrom(fn, func(root *ssa.Function) bool { return root == ra })
+					c.R.Check(okFrom, "R-C01-5", c.fname(fn)+":constructs-RouterAdvertisement", c.fname(fn), c.pos(al.Pos()), "RA literal in "+c.fname(fn), "only Interface.RouterAdvertisement builds RAs", "an RA that does not come from the configuration can be sent or reported")
 				}
 			}
 		}
